@@ -11,7 +11,9 @@ EXCLUDED = ["tests/t.py", "build/x.py", "node_modules/p/i.js", "src/test/t.py", 
             "src/tests/deep/t.java", "lib/build/b.c"]
 UNSUPPORTED = ["notes.txt", "README", "Makefile", "a.PY", "a.py.bak", "data.json", "src/style.css", "lib/x.h.in"]
 ODD_SUPPORTED = ["SConstruct", "src/SConscript"]       # Pygments maps these names to Python
-WEIRD = ['we"ird.py', "back\\slash.py", "café.py", "sp ace.js", "src/qu'ote.ts"]
+WEIRD = ['we"ird.py', "back\\slash.py", "café.py", "sp ace.js", "src/qu'ote.ts", "-dash.py", "files.py", "tree/files.js",
+         "codebase/totals.c", "a b/c d.py", "ünï/cödé.ts", "x" * 120 + ".py", "src/profile/entries.java", "root.cs", "..py", "a..b.js",
+         "src/[brackets].py", "50%.c", "dollar$.ts", "semi;colon.py"]
 DISTRACTOR_DIRS = ["src", "lib", "pkg", "x/y"]
 
 GOOD_SHAPES = ("one2", "one15", "one16", "one30", "one31", "one60", "one61", "one75", "multi", "multi2",
